@@ -87,19 +87,20 @@ func c14Snapshot(cs []*c14Closer) (calls []int, finished []bool) {
 }
 
 type c14Case struct {
-	N      int   `json:"closers"`
-	Fail   int   `json:"failing_mask"`
-	Steps  int   `json:"body_steps"`
-	Slow   int   `json:"slow_closer"` // -1 none
-	Wired  bool  `json:"wired_by_real_start,omitempty"`
-	Both   bool  `json:"closers_are_runners_too,omitempty"`             // wired closers also implement ApplicationRunner
-	AppDep int   `json:"closers_depend_on_app,omitempty"`               // wired closers hold the App itself: 1 directly, 2 through another component
-	Late   bool  `json:"named_after_the_app,omitempty"`                 // their names sort after the App's own component name (created after it)
-	Second int   `json:"second_close,omitempty"`                        // 1: App.Close is called again after it returned, 2: a second App.Close overlaps the first
-	Claim  bool  `json:"user_scanner_claims_the_apps_fields,omitempty"` // a user tag scanner declares the App's closer / runner slices as wire points too
-	Zero   int   `json:"zero_size_closers,omitempty"`                   // mask: stateless closers of field-less types (one shared address)
-	Bound  int   `json:"preemption_bound"`
-	Script []int `json:"schedule,omitempty"`
+	N       int   `json:"closers"`
+	Fail    int   `json:"failing_mask"`
+	Steps   int   `json:"body_steps"`
+	Slow    int   `json:"slow_closer"` // -1 none
+	Wired   bool  `json:"wired_by_real_start,omitempty"`
+	Both    bool  `json:"closers_are_runners_too,omitempty"`             // wired closers also implement ApplicationRunner
+	AppDep  int   `json:"closers_depend_on_app,omitempty"`               // wired closers hold the App itself: 1 directly, 2 through another component
+	Late    bool  `json:"named_after_the_app,omitempty"`                 // their names sort after the App's own component name (created after it)
+	OrdMask int   `json:"closers_with_an_order,omitempty"`               // bit i: closer i also implements Order() (Order = its index; a slow ordered closer must not hold the others back either)
+	Second  int   `json:"second_close,omitempty"`                        // 1: App.Close is called again after it returned, 2: a second App.Close overlaps the first
+	Claim   bool  `json:"user_scanner_claims_the_apps_fields,omitempty"` // a user tag scanner declares the App's closer / runner slices as wire points too
+	Zero    int   `json:"zero_size_closers,omitempty"`                   // mask: stateless closers of field-less types (one shared address)
+	Bound   int   `json:"preemption_bound"`
+	Script  []int `json:"schedule,omitempty"`
 }
 
 func c14Gen(c *core.Ctx) func(yield func(c14Case) bool) {
@@ -157,6 +158,26 @@ func c14Gen(c *core.Ctx) func(yield func(c14Case) bool) {
 				}
 			}
 		}
+		// closers that implement Order() (all of them, or only some): a failing or slow one still never
+		// keeps another closer from being invoked
+		for n := 1; n <= 3; n++ {
+			for _, om := range []int{1<<n - 1, 1, 1 << (n - 1)} {
+				for fail := 0; fail < 1<<n; fail++ {
+					for _, slow := range []int{-1, 0} {
+						if slow == 0 && n < 2 {
+							continue
+						}
+						b := 99
+						if n == 3 {
+							b = 1
+						}
+						if !yield(c14Case{N: n, Fail: fail, Steps: 0, Slow: slow, OrdMask: om, Bound: b}) {
+							return
+						}
+					}
+				}
+			}
+		}
 		// App.Close called twice (one after the other; overlapping): each call reaches every closer
 		// once and waits for the calls it made
 		for n := 1; n <= 2; n++ {
@@ -204,7 +225,11 @@ func c14Run(c *core.Ctx) {
 		for i := 0; i < cs.N; i++ {
 			k := &c14Closer{idx: i, fail: cs.Fail>>i&1 == 1, steps: cs.Steps, slow: i == cs.Slow}
 			closers = append(closers, k)
-			comps = append(comps, k)
+			if cs.OrdMask>>i&1 == 1 {
+				comps = append(comps, &c14Ordered{k})
+			} else {
+				comps = append(comps, k)
+			}
 		}
 		for _, k := range closers {
 			k.all = closers
@@ -292,7 +317,7 @@ func c14Run(c *core.Ctx) {
 			cc := cs
 			cc.Script = e.Script
 			key := func(kind string) string {
-				return "C14/" + kind + "/" + core.Hash(cs.N, cs.Fail, cs.Steps, cs.Slow, cs.Wired, cs.AppDep, cs.Late, cs.Claim, cs.Second)
+				return "C14/" + kind + "/" + core.Hash(cs.N, cs.Fail, cs.Steps, cs.Slow, cs.Wired, cs.AppDep, cs.Late, cs.Claim, cs.Second, cs.OrdMask)
 			}
 			switch {
 			case e.Deadlock:
@@ -373,6 +398,11 @@ func c14ZReset() { scen.ZLog = nil }
 
 //go:norace
 func c14ZSnapshot() []string { return append([]string{}, scen.ZLog...) }
+
+// c14Ordered is a closer that implements Order() as well.
+type c14Ordered struct{ *c14Closer }
+
+func (o *c14Ordered) Order() int { return o.idx }
 
 // c14ClaimScanner is a user tag scanner (the stock one with an ExtractHandler).
 type c14ClaimScanner struct {
